@@ -378,16 +378,18 @@ func (p *Parser) Interactive(r io.Reader, fn func([]*Stmt) bool) error {
 func (p *Parser) InteractiveSeq(r io.Reader) iter.Seq2[[]*Stmt, error] {
 	return func(yield func([]*Stmt, error) bool) {
 		w := wrappedReader{p: p, rd: r, yield: yield}
+		failed := false
 		for stmts, err := range p.StmtsSeq(&w) {
 			if w.stopped {
 				// The callback returned false while the parser was reading;
 				// whatever the parser made of the forced EOF is of no interest.
-				break
+				return
 			}
 			w.accumulated = append(w.accumulated, stmts)
 			if err != nil {
+				failed = true
 				if !yield(w.accumulated, err) {
-					break
+					return
 				}
 				// If the caller wishes, they can continue in the presence of parse errors.
 				// TODO: does this even work? Write tests for it. This only came up
@@ -398,7 +400,7 @@ func (p *Parser) InteractiveSeq(r io.Reader) iter.Seq2[[]*Stmt, error] {
 			// back to run the statements and print "$ ".
 			if p.tok == _Newl {
 				if !yield(w.accumulated, nil) {
-					break
+					return
 				}
 				w.accumulated = w.accumulated[:0]
 				// The callback above would already print "$ ", so we
@@ -406,6 +408,11 @@ func (p *Parser) InteractiveSeq(r io.Reader) iter.Seq2[[]*Stmt, error] {
 				// another "$ " print thinking that nothing was parsed.
 				w.lastLine = w.p.line + 1
 			}
+		}
+		// The input ended without a final newline token; the statements of
+		// that last line are complete and must still be handed over.
+		if !w.stopped && !failed && len(w.accumulated) > 0 {
+			yield(w.accumulated, nil)
 		}
 	}
 }
